@@ -73,7 +73,13 @@ package priority
 //@   effect gPendSet := gPendSet || opened
 //@   effect gPendP := ite(opened, p, gPendP)
 
+// The 1ns ticker bounds the wait on a silent unbuffered input (and nothing else may wait on it
+// after it was stopped): it is stopped only when the goroutine ends.
+//@ ghost var gIntStopped bool [C06 C07]
+//@ event call time.(*Ticker).Stop (t)
+//@   effect gIntStopped := true
 //@ event recv dsc.interrupter.C ()
+//@   requires [C06 C07] the-interrupt-that-bounds-the-wait-is-armed: !gIntStopped
 
 //@ event recv dsc.breaker.IsBreaked() ()
 //@   effect gStop := true
@@ -392,6 +398,7 @@ package priority
 //@     invariant [* C16] old(gStop) ==> gStop
 
 //@ func (*Discipline).iou
+//@   requires [C06 C07] interrupter-armed: !gIntStopped
 //@   requires [C02] SEQ2(dsc)
 //@   ensures [C02] SEQ2(dsc)
 //@   requires [*] WF(dsc)
@@ -415,6 +422,7 @@ package priority
 //@     invariant [* C16] old(gStop) ==> gStop
 
 //@ func (*Discipline).prioritize
+//@   requires [C06 C07] interrupter-armed: !gIntStopped
 //@   requires [C02] SEQ2(dsc)
 //@   ensures [C02] SEQ2(dsc)
 //@   requires [*] WF(dsc)
@@ -456,6 +464,7 @@ package priority
 //@     invariant [* C16] old(gStop) ==> gStop
 
 //@ func (*Discipline).base
+//@   requires [C06 C07] interrupter-armed: !gIntStopped
 //@   requires [C02] SEQ2(dsc)
 //@   ensures [C02] SEQ2(dsc)
 //@   requires [*] WF(dsc)
@@ -563,6 +572,7 @@ package priority
 //@   ensures [C02 C07 C15] gDivErr == old(gDivErr)
 
 //@ func (*Discipline).loop
+//@   requires [C06 C07] interrupter-armed: !gIntStopped
 //@   requires [C02] SEQ2(dsc)
 //@   ensures [C02] SEQ2(dsc)
 //@   requires [*] WF(dsc)
@@ -584,12 +594,13 @@ package priority
 //@     invariant [C02 C07] DRAINED(dsc)
 
 //@ func (*Discipline).main
+//@   requires [C06 C07] interrupter-armed: !gIntStopped
 //@   requires [C02] SEQ2(dsc)
 //@   requires [*] WF(dsc)
 //@   requires [C02 C07 C15] !gDivErr
 //@   requires [C16] !gCompleted
 //@   requires [C02 C07] DRAINED(dsc)
-//@   modifies content(dsc.tactic), content(dsc.actual), content(dsc.inputs), dsc.priorities, anyelems(dsc.priorities), dsc.strategic, dsc.uncrowded, dsc.useful, gPerm, gInv, gDivErr, gInfl, gInflP, gClock, gClosedIn, gStop, gGraceful, gPset, gCompleted, gIn, gInN, gOutNP, gPendSet, gPendP
+//@   modifies content(dsc.tactic), content(dsc.actual), content(dsc.inputs), dsc.priorities, anyelems(dsc.priorities), dsc.strategic, dsc.uncrowded, dsc.useful, gPerm, gInv, gDivErr, gInfl, gInflP, gClock, gClosedIn, gStop, gGraceful, gPset, gCompleted, gIn, gInN, gOutNP, gPendSet, gPendP, gIntStopped
 
 //@ func Opts.isValid
 //@   ensures [*] (result == nil) <==> (opts.Divider != nil && opts.HandlersQuantity != 0 && opts.Feedback != nil && opts.Output != nil)
@@ -600,7 +611,7 @@ package priority
 
 // The ghost state of a discipline that does not exist yet is empty.
 //@ func New
-//@   requires [*] ghost-initial-state: !gPendSet && (forall k :: gInN[k] == 0 && gOutNP[k] == 0) && gInfl == 0 && (forall k :: gInflP[k] == 0) && !gDivErr && !gStop && !gGraceful && !gCompleted && (forall k :: !in(gClosedIn, k)) && gPset == domset(opts.Inputs) && gH == opts.HandlersQuantity
+//@   requires [*] ghost-initial-state: !gIntStopped && !gPendSet && (forall k :: gInN[k] == 0 && gOutNP[k] == 0) && gInfl == 0 && (forall k :: gInflP[k] == 0) && !gDivErr && !gStop && !gGraceful && !gCompleted && (forall k :: !in(gClosedIn, k)) && gPset == domset(opts.Inputs) && gH == opts.HandlersQuantity
 //@   modifies gDivErr, gPerm, gInv, anyelems(uint)
 //@   ensures [*] result1 == nil ==> result0 != nil
 
